@@ -1028,7 +1028,7 @@ def shaped(ex, st, v, what='container'):
     return o
 
 
-@model(r'^(std::collections::)?VecDeque(?:::<.*>)?::(new|with_capacity|push_back|push_front|pop_front|pop_back|len|is_empty|front|back|front_mut|back_mut|iter|iter_mut|clear|get|contains)$|^Vec(?:::<.*>)?::(new|with_capacity|push|len|is_empty|pop|clear|iter|iter_mut|as_slice|first|last|get|extend_from_slice|truncate|insert|remove|contains|reserve|into_boxed_slice|as_mut_slice|sort_unstable|sort|dedup|swap_remove|drain|retain|append|split_off|first_mut|last_mut)$|^std::vec::Vec(?:::<.*>)?::(new|with_capacity)$|^core::slice::<impl \[.*\]>::(iter|iter_mut|len|is_empty|first|last|get|contains|to_vec|into_vec|sort_unstable|sort|split_first|split_last|concat)$|^std::slice::<impl \[.*\]>::(to_vec|into_vec|concat|sort|sort_unstable)$|^<\[.*\] as ToOwned>::to_owned$')
+@model(r'^(std::collections::)?VecDeque(?:::<.*>)?::(new|with_capacity|push_back|push_front|pop_front|pop_back|len|is_empty|front|back|front_mut|back_mut|iter|iter_mut|clear|get|contains)$|^Vec(?:::<.*>)?::(new|with_capacity|push|len|is_empty|pop|clear|iter|iter_mut|as_slice|first|last|get|extend_from_slice|truncate|insert|remove|contains|reserve|into_boxed_slice|as_mut_slice|sort_unstable|sort|dedup|swap_remove|drain|retain|append|split_off|first_mut|last_mut)$|^std::vec::Vec(?:::<.*>)?::(new|with_capacity)$|^core::slice::<impl \[.*\]>::(iter|iter_mut|len|is_empty|first|last|get|contains|to_vec|into_vec|sort_unstable|sort|split_first|split_last|concat|binary_search)$|^std::slice::<impl \[.*\]>::(to_vec|into_vec|concat|sort|sort_unstable)$|^<\[.*\] as ToOwned>::to_owned$')
 def m_vec(ctx):
     ex, st = ctx.ex, ctx.st
     op = ctx.callee.rsplit('::', 1)[1]
@@ -1130,6 +1130,31 @@ def m_vec(ctx):
         if not z3.is_bv_value(n): raise MirError('symbolic split_off')
         tail = items[n.as_long():]; del items[n.as_long():]
         return [(None, new_vec(v.ty, tail))]
+    if op in ('sort_unstable', 'sort'):
+        import itertools
+        ks = [ex.deref_val(st, k) for k in items]
+        if len(items) <= 1:
+            return [(None, ())]
+        if len(items) > 4 or not all(z3.is_bv(k) for k in ks):
+            return None
+        alts = []; seen = z3.BoolVal(False)
+        for perm in itertools.permutations(range(len(items))):
+            cond = z3.And(*[z3.ULE(ks[perm[i]], ks[perm[i + 1]]) for i in range(len(perm) - 1)])
+
+            def mk(s2, perm=perm):
+                vv = shaped(ex, s2, s2.tr(ctx.args[0]), 'Vec'); old_ = list(vv.attrs['items']); vv.attrs['items'] = [old_[i] for i in perm]
+                return ()
+            alts.append((z3.And(cond, z3.Not(seen)), mk)); seen = z3.Or(seen, cond)      # ties: the first matching permutation (equal scalars are indistinguishable)
+        return alts
+    if op == 'binary_search':
+        key = ex.deref_val(st, ctx.args[1]); ks = [ex.deref_val(st, k) for k in items]
+        if not z3.is_bv(key) or not all(z3.is_bv(k) for k in ks) or len(ks) > 6:
+            return None
+        alts = []; earlier = z3.BoolVal(False)
+        for i, k in enumerate(ks):
+            alts.append((z3.And(k == key, z3.Not(earlier)), ok(z3.BitVecVal(i, 64)))); earlier = z3.Or(earlier, k == key)
+        alts.append((z3.Not(earlier), (lambda s2: err(z3.BitVec(f'insertion_point_{nid()}', 64)))))
+        return alts
     return None
 
 
@@ -1229,6 +1254,9 @@ def m_iter_adapt(ctx):
     if op == 'filter_map':
         o = Obj('FilterMap', kind='mapiter'); o.attrs['inner'] = it; o.attrs['f'] = ctx.args[1]; o.attrs['filter'] = True
         return [(None, o)]
+    if op == 'filter':
+        o = Obj('Filter', kind='mapiter'); o.attrs['inner'] = it; o.attrs['f'] = ctx.args[1]; o.attrs['pred'] = True
+        return [(None, o)]
     if op == 'flat_map':
         o = Obj('FlatMap', kind='mapiter'); o.attrs['inner'] = it; o.attrs['f'] = ctx.args[1]; o.attrs['flat'] = True
         return [(None, o)]
@@ -1295,7 +1323,7 @@ def m_iter_consume(ctx):
         if inner.kind == 'mapiter':
             raise MirError('nested lazy iterator adaptors')
         xs = drain_iter(ex, st, inner)
-        c = Cont('mapcollect', pending=xs, done=[], f=it.attrs['f'], op=op, callee=ctx.callee, args=ctx.args[1:], dest=ctx.dest, nxt=ctx.nxt, ret_ty=ctx.ret_ty, filter=bool(it.attrs.get('filter')), flat=bool(it.attrs.get('flat')))
+        c = Cont('mapcollect', pending=xs, done=[], f=it.attrs['f'], op=op, callee=ctx.callee, args=ctx.args[1:], dest=ctx.dest, nxt=ctx.nxt, ret_ty=ctx.ret_ty, filter=bool(it.attrs.get('filter')), flat=bool(it.attrs.get('flat')), pred=bool(it.attrs.get('pred')))
         return _mapcollect_step(ex, st, c, ctx.work)
     xs = drain_iter(ex, st, it)
     return consume_list(ctx, op, xs, ctx.args[1:], ctx.ret_ty, ctx.dest, ctx.nxt)
@@ -1313,6 +1341,11 @@ def _mapcollect_step(ex, st, c, work):
         d['done'].append(d['pending'].pop(0).v)
     if d['pending']:
         x = d['pending'].pop(0)
+        if d.get('pred'):
+            d['cur'] = x
+            holder = Obj('filter-item', kind='cell'); holder.fields[('*', 0)] = x
+            ex.call_closure(st, d['f'], [Ref(('field', holder, ('*', 0, '?')))], d['dest'], d['nxt'], c)
+            return PUSHED
         ex.call_closure(st, d['f'], [x], d['dest'], d['nxt'], c)
         return PUSHED
     ctx2 = type('C', (), {})()
@@ -1338,7 +1371,13 @@ RESUMERS['flatinner'] = _resume_flat_inner
 
 
 def _resume_mapcollect(ex, st, cont, rv, work):
-    if cont.data.get('flat'):
+    if cont.data.get('pred'):
+        b = z3.simplify(rv) if z3.is_expr(rv) else rv
+        if z3.is_true(b):
+            cont.data['done'].append(cont.data['cur'])
+        elif not z3.is_false(b):
+            raise MirError('filter predicate with a symbolic result (the predicate must fork inside the closure)')
+    elif cont.data.get('flat'):
         sub = ex.deref_val(st, rv)
         if isinstance(sub, Obj) and sub.kind in ('iter', 'range'):
             cont.data['done'].extend(drain_iter(ex, st, sub))
